@@ -15,7 +15,7 @@ out.append("Each directory holds one change to krotik/ecal written by a fresh su
 "what it needs to manifest, what I ran, and which rule reports it. None of these changes was ever committed to /repo.\n"
 "`tools/try_seed.sh <patch> [Cxx ..]` applies one to /repo, runs the quick checks and undoes it; every thorough run applies\n"
 "all of them to scratch copies (self-validation) and records the outcome in the evidence.\n")
-for r in (1,2,3):
+for r in (1,2,3,4):
     rs=[m for m in rows if rnd(m)==r]
     key='detected_before_strengthening' if r==1 else 'detected_at_first_contact'
     first=sum(1 for m in rs if m.get(key))
@@ -25,6 +25,9 @@ for r in (1,2,3):
         out.append("Round 1 was run against the checker as it stood after the first build (rules R..a–d). The 25 misses drove the rules\n"
                    "added afterwards; those rules were therefore written *knowing* the seeds. Round 2 is the unbiased measurement of the\n"
                    "strengthened checker.\n")
+    elif r==4:
+        out.append("Round 4 was run after the third refactoring round, with fresh sub-agents told which six earlier changes per\n"
+                   "property to avoid.\n")
     elif r==3:
         out.append("Round 3 was run after both refactoring rounds (DESIGN 7.4), again with fresh sub-agents that were told which four\n"
                    "earlier changes per property to avoid. Several first-contact reports are side reports of another property's rule on\n"
